@@ -40,7 +40,11 @@ def render_item(it, gapdir=None):
     if k == 'ins':
         sig = enc.SIG[m]
         ops = [a, b, c][:len(sig)]
-        return (m + ' ' + ', '.join(reg(v) if s == 'r' and not (m in ('slli', 'srli', 'srai') and j == 2) else str(v)
+        def shamt(v):
+            # the shift amount goes through the assembler's register table: a number, xN, an alias and hex all name it
+            k = (a * 7 + b * 3 + v) % 4
+            return [str(v), 'x%d' % v, enc.ALIAS[v] if 0 <= v < 32 else str(v), hex(v)][k]
+        return (m + ' ' + ', '.join((shamt(v) if (m in ('slli', 'srli', 'srai') and j == 2) else reg(v)) if s == 'r' else str(v)
                                     for j, (s, v) in enumerate(zip(sig, ops)))).strip()
     if k == 'pins':
         if m in ('nop', 'ret', 'fence'):
@@ -60,6 +64,14 @@ def render_item(it, gapdir=None):
         return '%s %s' % (m, t)
     if k == 'li':
         v = (b << 16) | c
+        # the same 32-bit pattern in its unsigned, negative, decimal and binary spellings
+        k = (b ^ c ^ a) % 4
+        if k == 1 and v >= 2**31:
+            return 'li %s, %s' % (reg(a), v - 2**32)
+        if k == 2 and v >= 2**31:
+            return 'li %s, -%s' % (reg(a), hex(2**32 - v))
+        if k == 3:
+            return 'li %s, %d' % (reg(a), v)
         return 'li %s, %s' % (reg(a), hex(v))
     if k == 'lil':
         return 'li %s, %s' % (reg(a), expr(it))
